@@ -201,6 +201,8 @@ def r3(prog, run):
                 return (m['c'], True)
             if f.const_value(f.resolve(m['b'])) == NOERR:
                 return (m['c'], False)
+        if m['k'] == 'var' and m.get('vk') == 'local' and f.single_def(m['decl']) is None and any(f.const_value(x) == NOERR for x in f.all_defs(m['decl'])):
+            return ('var', m['decl'])       # Error result = NoError; if (mismatch) result = FileCorruptError; terminate(result);
         return None
     ok_calls = [i for i, n in cd.calls() if cd.cname(n).endswith('::terminate') and n.get('args') and success_arm(cd, n['args'][0]) is not None]
     if not ok_calls:
@@ -241,6 +243,25 @@ def r3(prog, run):
             arm = success_arm(cd, cd.nodes[x]['args'][0])
             if arm == 'always':
                 return True
+            if arm[0] == 'var':
+                # the values the result variable can hold at the call in this case
+                at_call = set()
+
+                def tr(f, nid, st, decl=arm[1], call=x):
+                    m = f.nodes[nid]
+                    if m['k'] == 'decl':
+                        for d_ in m['decls']:
+                            if d_['var'] == decl and d_.get('init') is not None:
+                                return (f.const_value(d_['init']),)
+                    if m['k'] == 'assign' and m.get('op') == '=':
+                        l_ = f.nodes[f.skip(m['l'])]
+                        if l_['k'] == 'var' and l_.get('decl') == decl:
+                            return (f.const_value(m['r']),)
+                    if nid == call:
+                        at_call.update(st)
+                    return None
+                cfgx.explore(cd, (None,), tr, lambda f, c, st: evc(f, c, None))
+                return NOERR in at_call or None in at_call
             # terminate(corrupt ? FileCorruptError : NoError): success only if the condition can select the NoError arm in this case
             v = evc(cd, arm[0], None)
             return not (isinstance(v, bool) and v != arm[1])
